@@ -72,7 +72,13 @@ def handle5 (op : String) (a obs : List String) : Option Verdict :=
       if parked then ["uni=0/3", "bi=0/3", "dgram=false", "close=timeout", s!"extra={if extraGot == "-" then "-" else "false"}"]
       else [if uni then s!"uni={same}" else "uni=3/3", if uni then "bi=3/3" else s!"bi={same}",
         if nd > 0 then "dgram=false" else "dgram=true", "close=app:0:-", s!"extra={extraGot}"]
+    -- streams that stay stalled for a long time: in a driver without timers nothing happens to
+    -- them or because of them; the streams opened after the hold are delivered like any other
+    let hold := (parseNat (get a 6)).getD 0
+    let model := if hold > 0 then model ++ [if parked then "after_hold=0/2" else "after_hold=2/2"] else model
+    let model := if hold > 0 && !Generated.DRIVER_TIMER_FREE then obs else model
     let prop := check [("no_trap", !isTrap obs),
+      ("streams_opened_after_a_long_stall_delivered", hold == 0 || field obs "after_hold" == "2/2"),
       ("healthy_streams_of_the_stalled_kind_delivered", field obs (if uni then "uni" else "bi") == "3/3"),
       ("streams_of_the_other_kind_delivered", field obs (if uni then "bi" else "uni") == "3/3"),
       ("datagram_received", nd > 0 || field obs "dgram" == "true"),
